@@ -14,7 +14,7 @@
     ConsolidateSharedPodInfoToDifferentGPU is excluded: it deliberately keeps a
     second charge for the same pod. *)
 From Coq Require Import List ZArith PArith.
-From KaiV Require Import Model.Res Model.Status Model.AMap Model.Node Model.NodeSpec Proofs.Node.
+From KaiV Require Import Model.Res Model.Status Model.AMap Model.Node Model.NodeSpec Proofs.Node Proofs.NodeFull.
 Import ListNotations.
 
 (** Non-vacuity / finding witness: on a 4-GPU node the device-count guard
@@ -219,3 +219,128 @@ Theorem C14_wholegpu_nonvacuous :
   /\ n_rel (run x_node nv_ops_whole) = mkRes 100 100 1 1 0 0.
 Proof. exact node_wholegpu_nonvacuous. Qed.
 Print Assumptions C14_wholegpu_nonvacuous.
+
+(** ** Whole-GPU idle / releasing columns on nodes WITH shared pods
+    (Proofs/NodeFull.v)
+
+    [FullBooks n] = [Books n] plus the two whole-GPU equations of
+    [books_ok true] (Model/NodeSpec.v), plus what the transitions read besides
+    the counters: the releasing marks name exactly the devices all of whose
+    used memory is releasing, the per-device maps are key-sorted, and the
+    node's device count equals its allocatable GPUs.  Side conditions:
+    [task_wf] (whole-GPU request >= 0, a shared request asks for positive
+    device memory) and [no_nominated_gpu] (no Pipelined pod holds GPUs: the
+    negation of [exposed]). *)
+Theorem C14_full_books_meaning : forall n : node,
+  FullBooks n <->
+  (Books n
+   /\ gpu (n_idle n) = (gpu (spec_idle (n_alloc n) (tasks_of n)) - occupied_groups (tasks_of n))%Z
+   /\ gpu (n_rel n) = (gpu (spec_rel (tasks_of n)) + releasing_groups (tasks_of n))%Z
+   /\ (forall g, marked g (g_mark n) = true <->
+                 (0 < zget g (g_used n) /\ zget g (g_rel n) = zget g (g_used n))%Z)
+   /\ sorted_keys (g_used n) /\ sorted_keys (g_mark n)
+   /\ n_ngpu n = gpu (n_alloc n)).
+Proof. exact full_books_unfold. Qed.
+Print Assumptions C14_full_books_meaning.
+
+(** Every operation preserves it when no nominated pod holds GPUs before and
+    after (an update passes through a state that holds a subset of the pods). *)
+Theorem C14_full_books_step : forall (n : node) (o : nop) (n' : node),
+  FullBooks n -> forallb task_wf (tasks_of n) = true -> forallb task_wf (op_tasks [o]) = true ->
+  no_nominated_gpu (tasks_of n) = true -> no_nominated_gpu (tasks_of n') = true ->
+  apply_op n o = Ok n' -> FullBooks n'.
+Proof. exact full_books_step. Qed.
+Print Assumptions C14_full_books_step.
+
+(** ... hence every operation sequence all of whose states are free of
+    nominated GPU holders ([nn_run]: the predicate evaluated along the run).
+    Generalises [C14_node_wholegpu_exact] from "no shared pods" to "shared
+    pods, no nominated GPU holder". *)
+Theorem C14_node_full_books : forall (n0 : node) (ops : list nop),
+  FullBooks n0 -> forallb task_wf (tasks_of n0) = true -> forallb task_wf (op_tasks ops) = true ->
+  nn_run n0 ops = true -> FullBooks (run n0 ops).
+Proof. exact node_full_books. Qed.
+Print Assumptions C14_node_full_books.
+
+(** Every freshly built node satisfies it. *)
+Theorem C14_full_books_init : forall n : node,
+  n_pods n = [] -> g_used n = [] -> g_alloc n = [] -> g_rel n = [] -> g_mark n = [] ->
+  n_idle n = n_alloc n -> n_used n = rzero -> n_rel n = rzero -> n_ngpu n = gpu (n_alloc n) ->
+  FullBooks n.
+Proof. exact full_books_init. Qed.
+Print Assumptions C14_full_books_init.
+
+(** It implies the executable monitor in its full mode. *)
+Theorem C14_full_books_monitor : forall n : node, FullBooks n -> books_ok true n (tasks_of n) = true.
+Proof. exact books_ok_true_of_FullBooks. Qed.
+Print Assumptions C14_full_books_monitor.
+
+(** The side condition is the negation of [exposed]. *)
+Theorem C14_no_nominated_not_exposed : forall (ts : list task) (moved : task),
+  no_nominated_gpu ts = true -> exposed ts moved = false.
+Proof. exact exposed_no_nominated. Qed.
+Print Assumptions C14_no_nominated_not_exposed.
+
+(** The statement without the side condition along the run (only at both ends). *)
+Definition C14_full_books_unconditional : Prop :=
+  forall n0 ops,
+    FullBooks n0 -> forallb task_wf (tasks_of n0) = true -> forallb task_wf (op_tasks ops) = true ->
+    no_nominated_gpu (tasks_of n0) = true -> no_nominated_gpu (tasks_of (run n0 ops)) = true ->
+    FullBooks (run n0 ops).
+
+(** It is false: the history of [C14_device_guard_refuted] starts from an empty
+    4-GPU node, ends without nominated pods, and ends with idle GPUs 0 where
+    the recomputation says 1. *)
+Theorem C14_full_books_unconditional_refuted : ~ C14_full_books_unconditional.
+Proof. exact full_books_unconditional_refuted. Qed.
+Print Assumptions C14_full_books_unconditional_refuted.
+
+Theorem C14_full_books_needs_no_nominated :
+  FullBooks x_node /\ forallb task_wf (tasks_of x_node) = true /\ forallb task_wf (op_tasks ng_ops) = true
+  /\ no_nominated_gpu (tasks_of x_node) = true /\ no_nominated_gpu (tasks_of (run x_node ng_ops)) = true
+  /\ nn_run x_node ng_ops = false
+  /\ gpu (n_idle (run x_node ng_ops)) = 0%Z
+  /\ (gpu (spec_idle (n_alloc (run x_node ng_ops)) (tasks_of (run x_node ng_ops)))
+      - occupied_groups (tasks_of (run x_node ng_ops)) = 1)%Z.
+Proof. exact full_books_needs_no_nominated. Qed.
+Print Assumptions C14_full_books_needs_no_nominated.
+
+(** The two equations of [books_ok true] alone are not inductive (the
+    transitions read the releasing marks, which [books_ok] does not constrain),
+    and the node's device count must equal its allocatable GPUs. *)
+Theorem C14_books_equations_alone_not_inductive :
+  exists n',
+    books_ok true stray_node (tasks_of stray_node) = true
+    /\ n_ngpu stray_node = gpu (n_alloc stray_node)
+    /\ add_task stray_node (x_sh 1 Running 50 [1%positive]) = Ok n'
+    /\ gpu (n_rel n') = (-1)%Z
+    /\ books_ok true n' (tasks_of n') = false.
+Proof. exact books_equations_alone_not_inductive. Qed.
+Print Assumptions C14_books_equations_alone_not_inductive.
+
+Theorem C14_device_count_must_match :
+  exists n',
+    books_ok true odd_node (tasks_of odd_node) = true
+    /\ add_task odd_node (x_sh 1 Running 50 [1%positive]) = Ok n'
+    /\ gpu (n_idle n') = 4%Z
+    /\ (gpu (spec_idle (n_alloc n') (tasks_of n')) - occupied_groups (tasks_of n') = 3)%Z.
+Proof. exact device_count_must_match. Qed.
+Print Assumptions C14_device_count_must_match.
+
+(** Non-vacuity: [nv_node] (running sharer on device 1, whole-GPU pod,
+    terminating sharer on device 2) satisfies every hypothesis; the run binds
+    a sharer into device 1 and one onto a fresh device, evicts the whole-GPU
+    pod, drops the terminating sharer, binds a whole-GPU pod and nominates a
+    pod that holds nothing. *)
+Theorem C14_full_books_nonvacuous :
+  FullBooks nv_node
+  /\ forallb task_wf (tasks_of nv_node) = true /\ forallb task_wf (op_tasks fv_ops) = true
+  /\ nn_run nv_node fv_ops = true
+  /\ occupied_groups (tasks_of nv_node) = 2%Z /\ releasing_groups (tasks_of nv_node) = 1%Z
+  /\ gpu (n_idle nv_node) = 1%Z /\ gpu (n_rel nv_node) = 1%Z
+  /\ map t_id (tasks_of (run nv_node fv_ops)) = [2; 3; 5; 6; 8; 9]%positive
+  /\ occupied_groups (tasks_of (run nv_node fv_ops)) = 2%Z
+  /\ gpu (n_idle (run nv_node fv_ops)) = 0%Z /\ gpu (n_rel (run nv_node fv_ops)) = 1%Z
+  /\ books_ok true (run nv_node fv_ops) (tasks_of (run nv_node fv_ops)) = true.
+Proof. exact full_books_run_nonvacuous. Qed.
+Print Assumptions C14_full_books_nonvacuous.
